@@ -271,9 +271,11 @@ structure ATok where
   tok : Tok
   deriving DecidableEq, Repr
 
-/-- what a token contributes to the text (an INDENT is zero-width: its characters are the gap of the
-token that follows it) -/
-def vis (t : Tok) : Str := if t.kind = .INDENT then [] else t.text
+/-- what a token contributes to the text: an INDENT is zero-width (its characters are the gap of the token
+that follows it); the literal part of an f-string (FSTRING_MIDDLE) appears in the source with its braces
+doubled (`{{` is tokenized as `{`), every other token appears as its string. -/
+def vis (t : Tok) : Str :=
+  if t.kind = .INDENT then [] else if t.kind = .FSTRING_MIDDLE then escapeBraces t.text else t.text
 
 def renderA (as : List ATok) : Str := as.flatMap fun a => a.gap ++ vis a.tok
 
@@ -332,7 +334,7 @@ def wfGo (p : Str) (st : WState) : List ATok → Bool
         wfGo p ⟨st.depth - 1, st.startline, false⟩ as
     | .ENDMARKER => a.gap == [] && a.tok.text == [] && st.depth == 0 && as.isEmpty
     | .NEWLINE | .NL => a.tok.text == ['\n'] && (!st.afterMiddle || a.gap == []) && wfGo p ⟨st.depth, true, false⟩ as
-    | .FSTRING_MIDDLE => a.gap == [] && !st.startline && !st.afterMiddle && wfGo p ⟨st.depth, false, true⟩ as
+    | .FSTRING_MIDDLE => a.gap == [] && !st.startline && wfGo p ⟨st.depth, false, true⟩ as
     | .STRING => headNonSpace a.tok.text && lastNonSpace a.tok.text && st.depth != 0 && !st.afterMiddle &&
         wfGo p ⟨st.depth, false, false⟩ as
     | .NAME | .NUMBER | .OP | .COMMENT | .FSTRING_START | .FSTRING_END =>
